@@ -91,6 +91,7 @@ structure Parsed where
   sc : Scenario
   cp : String
   relayed : List Bytes
+  json : Json
 
 def parseScenario (j : Json) : Option Parsed := do
   let cfg ← (j.getObjVal? "cfg").toOption
@@ -137,12 +138,14 @@ def parseScenario (j : Json) : Option Parsed := do
     | _ => none
   let jsonEnd := tableOf j "jsonEnd"
   let jsonErr := tableOf j "jsonErr"
+  let statusBin := tableOf j "statusBin"
   let tables : Tables := {
     jsonEnd := fun b => (jsonEnd.find? (fun e => e.1 == b)).bind fun e => parseEntry e.2
     jsonErr := fun b => (jsonErr.find? (fun e => e.1 == b)).bind fun e => (parseEntry e.2).bind (·.1)
+    statusBin := fun b => (statusBin.find? (fun e => e.1 == b)).bind fun e => (parseEntry e.2).bind (·.1)
   }
   pure { sc := { conf := conf, req := req, src := src, script := script, tables := tables },
-         cp := strField j "cp", relayed := (strList j "relayed").filterMap fromHex }
+         cp := strField j "cp", relayed := (strList j "relayed").filterMap fromHex, json := j }
 
 /-! ### canonical rendering -/
 
@@ -182,7 +185,7 @@ def endToken (relayed : List Bytes) (place : String) (e : Option RpcErr) : Strin
     s!"{place}:{err.code}:{m}:{err.details}"
 
 /-- Concrete `Grpc-Status`/`Grpc-Message` keys in a header map (pass-through responses). -/
-def concreteGrpcEnd (relayed : List Bytes) (place : String) (h : Hdr) : Option String :=
+def concreteGrpcEnd (tb : Tables) (relayed : List Bytes) (place : String) (h : Hdr) : Option String :=
   let st := h.get (s "Grpc-Status")
   if st.isEmpty then none else
   match parseUint32 st with
@@ -193,10 +196,14 @@ def concreteGrpcEnd (relayed : List Bytes) (place : String) (h : Hdr) : Option S
     | none => some "MALFORMED-MESSAGE"
     | some msg =>
       if !enc.all (fun c => 0x20 ≤ c && c ≤ 0x7E) then some "UNPRINTABLE-MESSAGE"
-      else if !(h.get (s "Grpc-Status-Details-Bin")).isEmpty then some "MALFORMED-DETAILS"
       else
+        let bin := h.get (s "Grpc-Status-Details-Bin")
         let m := if code != 0 || !msg.isEmpty then renderMsg relayed (.text msg) else "-"
-        some s!"{place}:{code}:{m}:0"
+        if bin.isEmpty then some s!"{place}:{code}:{m}:0"
+        else match tb.statusBin bin with
+          | none => some "MALFORMED-DETAILS"
+          | some e => if e.code != code || e.msg != .text msg then some "INCONSISTENT-DETAILS"
+            else some s!"{place}:{code}:{m}:{e.details}"
 
 def badTrailerNames : List Bytes :=
   ["Authorization", "Cache-Control", "Connection", "Content-Encoding", "Content-Length", "Content-Range",
@@ -271,10 +278,10 @@ def canonClient (tb : Tables) (cp : String) (relayed : List Bytes) (k : Sink) : 
           if fs.any (fun f => f.1 > 1) then "BADFLAGS"
           else renderFrames (fs.filterMap fun f => match f.2 with | .raw b => some (f.1, b) | .tok _ => none)
       let hdrTok : Option String :=
-        if hdrMarkSet then some (endToken relayed "hdr" k.hdrEnd) else concreteGrpcEnd relayed "hdr" hdr
+        if hdrMarkSet then some (endToken relayed "hdr" k.hdrEnd) else concreteGrpcEnd tb relayed "hdr" hdr
       match hdrTok with
       | some tok =>
-        let tconc := concreteGrpcEnd relayed "trailer" trailer
+        let tconc := concreteGrpcEnd tb relayed "trailer" trailer
         let both : Bool := match tconc with
           | some _ => (trailer.filter (fun e => isStatusKey e.1)).any fun e => hdr.values e.1 != e.2
           | none => false
@@ -283,13 +290,13 @@ def canonClient (tb : Tables) (cp : String) (relayed : List Bytes) (k : Sink) : 
         { ch := dropStatusKeys hdr, cb := cb, «end» := tok, ct := dropStatusKeys trailer }
       | none =>
         let ttok : Option String :=
-          if k.trailerEndSet then some (endToken relayed "trailer" k.trailerEnd) else concreteGrpcEnd relayed "trailer" trailer
+          if k.trailerEndSet then some (endToken relayed "trailer" k.trailerEnd) else concreteGrpcEnd tb relayed "trailer" trailer
         match ttok with
         | some tok => { ch := hdr, cb := cb, «end» := tok, ct := dropStatusKeys trailer }
         | none => { ch := hdr, cb := cb, «end» := "none", ct := trailer }
     | "grpcweb" =>
       let hdrTok : Option String :=
-        if hdrMarkSet then some (endToken relayed "hdr" k.hdrEnd) else concreteGrpcEnd relayed "hdr" hdr
+        if hdrMarkSet then some (endToken relayed "hdr" k.hdrEnd) else concreteGrpcEnd tb relayed "hdr" hdr
       let (ch, end0) := match hdrTok with
         | some tok => (dropStatusKeys hdr, if bodyLen != some 0 then "TRAILERS-ONLY-WITH-BODY" else tok)
         | none => (hdr, "none")
@@ -318,7 +325,7 @@ def canonClient (tb : Tables) (cp : String) (relayed : List Bytes) (k : Sink) : 
                 let lines := splitCRLF payload
                 let th : Hdr := lines.foldl (fun h l => if l.isEmpty || !l.contains 0x3A then h else
                   Hdr.add h (l.takeWhile (· != 0x3A)) (trimSpace ((l.dropWhile (· != 0x3A)).drop 1))) []
-                match concreteGrpcEnd relayed "frame" th with
+                match concreteGrpcEnd tb relayed "frame" th with
                 | some tok => (tok, dropStatusKeys th)
                 | none => ("TRAILER-FRAME-WITHOUT-STATUS", dropStatusKeys th)) (end0, trailer)
         { ch := ch, cb := cb, «end» := res.1, ct := res.2 }
@@ -535,6 +542,175 @@ def oracleC13 (p : Parsed) (res : List String) : Option String :=
   | .ok o => if o.passThrough then expect .svc (some o) else none
   | _ => none
 
+end Vanguard.Driver
+
+namespace Vanguard.Driver
+open Vanguard Lean
+
+/-- Ground truth of a clean scenario (harness/e2e.go `Expectation`). -/
+structure Expect where
+  reqValues : List Bytes
+  respValues : List Bytes
+  errCode : Nat
+  errMsg : Bytes
+  details : Nat
+  trailers : List (Bytes × Bytes)
+  respHeaders : List (Bytes × Bytes)
+  sizesSafe : Bool
+  readsAll : Bool
+  trailersInHeaders : Bool
+
+def pairList (j : Json) (k : String) : List (Bytes × Bytes) :=
+  (arrField j k).toList.filterMap fun row =>
+    match row with
+    | .arr #[.str a, .str b] => match fromHex a, fromHex b with
+      | some a, some b => some (a, b)
+      | _, _ => none
+    | _ => none
+
+def parseExpect (j : Json) : Option Expect :=
+  match j.getObjVal? "expect" with
+  | .ok (.obj kvs) =>
+    let e := Json.obj kvs
+    some { reqValues := (strList e "reqValues").filterMap fromHex, respValues := (strList e "respValues").filterMap fromHex,
+           errCode := natField e "errCode", errMsg := (hexField e "errMsg").getD [], details := natField e "details",
+           trailers := pairList e "trailers", respHeaders := pairList e "respHeaders",
+           sizesSafe := boolField e "sizesSafe", readsAll := boolField e "readsAll",
+           trailersInHeaders := boolField e "trailersInHeaders" }
+  | _ => none
+
+/-- Decode one transported payload back to its value. -/
+def decodePayload (codec : Bytes) (comp : Option Bytes) (compressed : Bool) (p : Bytes) : Option Bytes :=
+  let d? : Option Bytes :=
+    if compressed then
+      match comp with
+      | some z => if p.isEmpty then some p else fakeWorld.decompress z p
+      | none => none
+    else some p
+  d?.bind (fakeWorld.decode codec)
+
+/-- The messages in an enveloped byte stream (`none` = not a whole number of well-formed frames). -/
+def messagesOfStream (codec : Bytes) (comp : Option Bytes) (b : Bytes) : Option (List Bytes) :=
+  (splitFramesFuel (b.length + 1) b).bind fun fs =>
+    fs.mapM fun f => match f.2 with
+      | .raw p => if f.1 > 1 then none else decodePayload codec comp (f.1 == 1) p
+      | .tok _ => none
+
+/-- Messages the client received, from the canonical `cb` field. -/
+def clientMessages (codec : Bytes) (comp : Option Bytes) (cb : String) : Option (List Bytes) :=
+  if cb == "-" then some []
+  else if cb.startsWith "B:" then
+    ((fromHex (cb.drop 2).toString).bind fun p => decodePayload codec comp comp.isSome p).map ([·])
+  else
+    (cb.splitOn ",").mapM fun item =>
+      match item.splitOn ":" with
+      | [f, h] => (fromHex h).bind fun p =>
+          if f == "F0" then decodePayload codec comp false p
+          else if f == "F1" then decodePayload codec comp true p else none
+      | _ => none
+
+def nonIdentity (b : Bytes) : Option Bytes := if b.isEmpty || b == identityName then none else some b
+
+/-- C01: in a clean scenario the backend reads exactly the client's messages and a successful
+    client outcome carries exactly the backend's messages; with sizes that fit, the RPC is not
+    failed by the transcoder. -/
+def oracleC01 (p : Parsed) (ex : Expect) (fs : List (String × String)) : Option String :=
+  match branchOf p with
+  | .transcoded o =>
+    if fieldOf fs "disp" != "svc" then
+      (if ex.sizesSafe then some "clean request was not dispatched" else none) else
+    if fieldOf fs "bm" == toHex sGET then none else      -- Connect GET target: message travels in the URL (C19)
+    let br := (fromHex (fieldOf fs "br")).getD []
+    let reqOk : Option String :=
+      if !(ex.readsAll && fieldOf fs "bre" == "eof") then none else
+      let got : Option (List Bytes) :=
+        match o.serverEnveloper with
+        | some _ => messagesOfStream o.scodec o.sReqComp br
+        | none => (decodePayload o.scodec o.sReqComp o.sReqComp.isSome br).map ([·])
+      let clientOk := ((fieldOf fs "end").splitOn ":").getD 1 "" == "0"
+      match got with
+      | none => some "backend received a request body that does not decode in the negotiated protocol/codec/compression"
+      | some vs =>
+        if vs == ex.reqValues then none
+        else if !clientOk && vs.isPrefixOf ex.reqValues then none   -- the RPC failed visibly; what was handed on is unaltered
+        else some "backend received different request messages than the client sent"
+    match reqOk with
+    | some why => some why
+    | none =>
+      let endS := fieldOf fs "end"
+      let code := match endS.splitOn ":" with
+        | [_, c, _, _] => c.toNat?
+        | _ => none
+      let ch := parseHdrField (fieldOf fs "ch")
+      let comp := nonIdentity (match o.cform with
+        | .grpc | .grpcWeb => ch.get (s "Grpc-Encoding")
+        | .connectStream => ch.get (s "Connect-Content-Encoding")
+        | _ => ch.get (s "Content-Encoding"))
+      match code with
+      | none => none                       -- malformed outcome: C03's business
+      | some 0 =>
+        if ex.errCode != 0 then some "backend failed the RPC but the client saw success" else
+        match clientMessages o.ccodec comp (fieldOf fs "cb") with
+        | none => some "client received response data that does not decode in its codec/compression"
+        | some vs => if vs == ex.respValues then none else some "client received different response messages than the backend sent"
+      | some c =>
+        if ex.errCode == 0 && ex.sizesSafe then some s!"clean RPC with fitting sizes was failed (code {c})" else none
+  | _ => none
+
+/-- C04: a clean backend error reaches the client with the same code, message and details. -/
+def oracleC04 (p : Parsed) (ex : Expect) (fs : List (String × String)) : Option String :=
+  match branchOf p with
+  | .transcoded _ =>
+    if ex.errCode == 0 || !ex.sizesSafe || fieldOf fs "disp" != "svc" then none else
+    match (fieldOf fs "end").splitOn ":" with
+    | [_, c, m, d] =>
+      if c.toNat? != some ex.errCode then some s!"error code changed: backend {ex.errCode}, client {c}"
+      else if m != toHex ex.errMsg && !(ex.errMsg.isEmpty && m == "-") then some "error message changed"
+      else if d.toNat? != some ex.details then some s!"error details lost: backend {ex.details}, client {d}"
+      else none
+    | _ => none
+  | _ => none
+
+def controlKeys : List Bytes :=
+  ["Content-Type", "Content-Length", "Content-Encoding", "Accept-Encoding", "Te", "Trailer", "Grpc-Timeout", "Grpc-Encoding",
+   "Grpc-Accept-Encoding", "Grpc-Status", "Grpc-Message", "Grpc-Status-Details-Bin", "Connect-Timeout-Ms",
+   "Connect-Content-Encoding", "Connect-Accept-Encoding", "Connect-Protocol-Version"].map s
+
+/-- C05: application request headers reach the backend, application response headers and trailers
+    reach the client, and protocol status keys do not leak into application metadata. -/
+def oracleC05 (p : Parsed) (ex : Option Expect) (fs : List (String × String)) : Option String :=
+  match branchOf p with
+  | .transcoded o =>
+    if fieldOf fs "disp" != "svc" then none else
+    let bh := parseHdrField (fieldOf fs "bh")
+    let lostReq := p.sc.req.headers.find? fun e => !controlKeys.contains e.1 && bh.values e.1 != e.2
+    match lostReq with
+    | some e => some ("request header did not reach the backend unchanged: " ++ toHex e.1)
+    | none =>
+      let ct := parseHdrField (fieldOf fs "ct")
+      let ch := parseHdrField (fieldOf fs "ch")
+      let leak := (ct ++ (if o.cform == .grpc || o.cform == .grpcWeb then [] else ch)).find? fun e => isStatusKey (canonKey e.1)
+      match leak with
+      | some e => some ("protocol status key leaked into application metadata: " ++ toHex e.1)
+      | none =>
+        match ex with
+        | none => none
+        | some ex =>
+          if !ex.sizesSafe then none else
+          let missH := ex.respHeaders.find? fun kv => !(ch.values kv.1).contains kv.2
+          match missH with
+          | some kv => some ("response header lost: " ++ toHex kv.1)
+          | none =>
+            let ctCanon : Hdr := ct.foldl (fun acc e => Hdr.addAll acc e.1 e.2) []
+            -- in a trailers-only exchange (on either leg) headers and trailers are one block
+            let inHeaders := ex.trailersInHeaders || (fieldOf fs "end").startsWith "hdr:"
+            let missT := ex.trailers.find? fun kv =>
+              !((ctCanon.values kv.1).contains kv.2 || (inHeaders && (ch.values kv.1).contains kv.2))
+            match missT with
+            | some kv => some ("trailer lost or misplaced: " ++ toHex kv.1)
+            | none => none
+  | _ => none
+
 def specE2E (prop : String) (hexJson : String) (res : List String) : String :=
   match (fromHex hexJson).bind (fun b => (Json.parse (bytesToString b)).toOption) |>.bind parseScenario with
   | none => "nospec"
@@ -546,10 +722,14 @@ def specE2E (prop : String) (hexJson : String) (res : List String) : String :=
       | "C18" => some (oracleC18 p fs)
       | "C03" => some (oracleC03 p fs)
       | "C13" => some (oracleC13 p res)
+      | "C01" => (parseExpect p.json).map fun ex => oracleC01 p ex fs
+      | "C04" => (parseExpect p.json).map fun ex => oracleC04 p ex fs
+      | "C05" => some (oracleC05 p (parseExpect p.json) fs)
       | _ => none
     match r with
     | none => "nospec"
     | some none => "ok"
     | some (some why) => "fail " ++ why
+
 
 end Vanguard.Driver
